@@ -76,6 +76,7 @@ type FuncContract struct {
 	NoSharedAppend bool
 	GhostSets      []*GhostSet // ghost assignments performed at the function's exit (definitional, not proof obligations)
 	IterBody       bool        // the function returns a function literal (iterator): its body is verified as part of this unit
+	GoBodies       bool // bodies of go statements with function literals are executed (thread-modular, no interference)
 }
 
 // GhostSet is "ghostset g(key) = value": at every exit the ghost cell g(key) is assigned value (both evaluated in the
@@ -175,7 +176,7 @@ var clauseKeywords = map[string]bool{
 	"writes": true, "loop": true, "invariant": true, "decreases": true, "param": true,
 	"inline": true, "terminates": true, "pure": true, "purerec": true, "axiom": true,
 	"ghost": true, "ghostfn": true, "lemma": true, "extern": true, "functype": true,
-	"trusted": true, "opaque": true, "noshare": true, "ghostparam": true, "check": true, "bind": true, "behavior": true, "assumes": true, "callsite": true, "capture": true, "iterbody": true, "index": true, "use": true, "ghostset": true, "at": true,
+	"trusted": true, "opaque": true, "noshare": true, "ghostparam": true, "check": true, "bind": true, "behavior": true, "assumes": true, "callsite": true, "capture": true, "iterbody": true, "index": true, "use": true, "ghostset": true, "at": true, "gobodies": true,
 }
 
 // rewriteImplies converts "A ==> B" to "implies(A, B)" and "A <==> B" to "iff(A,B)" at every nesting level.
@@ -403,6 +404,7 @@ func readSpecLines(path string) ([]rawLine, int, error) {
 }
 
 var reFuncHdr = regexp.MustCompile(`^(.*?)(?:\s+returns\s*\((.*)\))?$`)
+var reParamHdr = regexp.MustCompile(`^([\w.]+)\((.*?)\)\s*([^=]*?)\s*(?:=\s*(.*))?$`)
 var rePureHdr = regexp.MustCompile(`^(\w+)\((.*?)\)\s*([^=]*?)\s*(?:=\s*(.*))?$`)
 
 func splitParams(s string) (names, types []string) {
@@ -498,6 +500,8 @@ func (cs *Contracts) loadFile(path, pkgPath string) error {
 			cur.Inline = true
 		case "terminates":
 			cur.Terminates = true
+		case "gobodies":
+			cur.GoBodies = true
 		case "iterbody":
 			cur.IterBody = true
 		case "noshare":
@@ -683,7 +687,7 @@ func (cs *Contracts) loadFile(path, pkgPath string) error {
 		case "index":
 			curLoop.IndexName = strings.TrimSpace(l.rest)
 		case "param", "functype":
-			m := rePureHdr.FindStringSubmatch(strings.Replace(l.rest, " returns ", " ", 1))
+			m := reParamHdr.FindStringSubmatch(strings.Replace(l.rest, " returns ", " ", 1))
 			if m == nil {
 				return fmt.Errorf("%s: bad param header", l.where)
 			}
